@@ -156,6 +156,27 @@ def check_case(case, stats=None):
             O.check_block(image, fw, 0, replies[0][5], blocks)
         except ValueError as exc:
             fail("block_response_wrong", f"after a request for another firmware: {exc}")
+    # a rebuilt image uploaded under the SAME type/version replaces the old one completely
+    if case.get("reupload"):
+        image3 = lockstep.image_bytes({"len": case["reupload"], "seed": case["seed"] + 7, "fill": "random"})
+        drv.update_fw(nodes, fw[0], fw[1], image=image3)
+        replies = fetch(drv, nodes[0], O.words_hex(1, 1, 1, 1, 1), 0)
+        if len(replies) != 1:
+            fail("config_response_missing", f"after a re-upload under the same type/version: {replies}")
+        try:
+            b3, c3 = O.check_config(image3, fw, replies[0][5])
+        except ValueError as exc:
+            fail("config_response_wrong", f"after a re-upload under the same type/version: {exc}")
+        got = b""
+        for blk in range(b3):
+            rep = fetch(drv, nodes[0], O.words_hex(fw[0], fw[1], blk), 2)
+            try:
+                got += O.check_block(image3, fw, blk, rep[0][5], b3) if len(rep) == 1 else b""
+            except ValueError as exc:
+                fail("stale_image_served", f"after a re-upload under the same type/version: {exc}")
+        if got[: len(image3)] != image3 or O.crc16_modbus(got) != c3:
+            fail("stale_image_served", "after a re-upload under the same type/version the served bytes are not the new image")
+        image, blocks, crc = image3, b3, c3
     # beyond the end
     for blk in (blocks, blocks + 1, blocks + 7, 65535):
         if blk > 65535:
@@ -195,6 +216,8 @@ def make_case(length, rnd, full=None, via_hex=False):
     }
     if rnd.random() < 0.3:
         case["second"] = rnd.choice([16, 100, 128, 300])
+    if rnd.random() < 0.3:
+        case["reupload"] = rnd.choice([16, 100, 129, 400, max(1, min(length, 2000) - 17), min(length, 2000) + 40])
     if via_hex:
         case["via_hex"] = True
         case["hexopts"] = {
